@@ -189,6 +189,9 @@ structure Laser where
   elements : List String
   data : Grid Px
   config : Cfg
+  /-- `laser.calibration[e]`, one opaque token per element name (0 = the default `Calibration()`,
+  which is what every loader but `io.npz.load` gives) -/
+  calib : String → Tok := fun _ => 0
 
 /-- `laser.data[e]` -/
 def Laser.field (l : Laser) (e : String) : Grid Tok :=
@@ -273,7 +276,7 @@ def restrictSpec (config : Option Cfg) (elements : Option (List String)) (l : La
   | none => some { l with config := config.getD l.config }
   | some req =>
     let els := l.elements.filter fun e => req.contains e
-    if els = [] then none else some { elements := els, data := l.data, config := config.getD l.config }
+    if els = [] then none else some { l with elements := els, config := config.getD l.config }
 
 /-- the body of the loop at lines 381-387: one field assignment; a requested element the input does
 not have is skipped -/
@@ -313,7 +316,7 @@ def stackLasers (o : Orient) (pad : Tok) (ls : List Laser) : Option Laser :=
   | l0 :: _ =>
     if ls.all (fun l => l.elements == l0.elements) then
       (stack o (fun _ => pad) (ls.map (·.data))).map fun g =>
-        { elements := l0.elements, data := g, config := l0.config }
+        { elements := l0.elements, data := g, config := l0.config, calib := l0.calib }
     else none
 
 def stackLasersSpec (o : Orient) (pad : Tok) (ls : List Laser) : Option Laser :=
@@ -321,7 +324,8 @@ def stackLasersSpec (o : Orient) (pad : Tok) (ls : List Laser) : Option Laser :=
   | [] => none
   | l0 :: _ =>
     if ls.all (fun l => l.elements == l0.elements) then
-      some { elements := l0.elements, data := stackSpec o (fun _ => pad) (ls.map (·.data)), config := l0.config }
+      some { elements := l0.elements, data := stackSpec o (fun _ => pad) (ls.map (·.data)), config := l0.config,
+             calib := l0.calib }
     else none
 
 /-! ## files -/
@@ -482,10 +486,10 @@ value at every pixel of the image (every field name). -/
 def GridEq {α} (g g' : Grid α) : Prop :=
   g.h = g'.h ∧ g.w = g'.w ∧ ∀ i j, i < g.h → j < g.w → g.get i j = g'.get i j
 
-/-- same element names in the same order, same configuration, same shape, and at every pixel inside
-the shape the same value of every field -/
+/-- same element names in the same order, same configuration, same calibrations, same shape, and at
+every pixel inside the shape the same value of every field -/
 def LaserEq (l l' : Laser) : Prop :=
-  l.elements = l'.elements ∧ l.config = l'.config ∧ GridEq l.data l'.data
+  l.elements = l'.elements ∧ l.config = l'.config ∧ l.calib = l'.calib ∧ GridEq l.data l'.data
 
 def ContentEq : Content → Content → Prop
   | .npz l, .npz l' => LaserEq l l'
@@ -791,5 +795,171 @@ def mainRun (c : CmdLine) : Result := mainWith (loadMech c.defaults) run c
 
 /-- what the property says of a command line -/
 def specMain (c : CmdLine) : Result := mainWith (loadSpec c.defaults) specRun c
+
+/-! ## storage types (`dtype`) of the fields
+
+Every loader but `io.npz.load` returns float64 fields; an .npz keeps whatever its fields were stored
+as (float32, integers, big-endian, …).  Values stay tokens of their float64 widening; what NumPy does
+when a value is put into a field of another storage type is an opaque function (`Casting.cast`), as
+is the type `np.concatenate` promotes to (`Casting.promote`, `np.result_type`). -/
+
+/-- a storage type, by its NumPy name -/
+abbrev DType := String
+
+structure Casting where
+  /-- the value a field of storage type `t` holds after `v` was assigned to it -/
+  cast : DType → Tok → Tok
+  /-- `np.result_type(*types)`: the type `np.concatenate` gives the joined field -/
+  promote : List DType → DType
+
+def Grid.map {α β} (f : α → β) (g : Grid α) : Grid β :=
+  { h := g.h, w := g.w, get := fun i j => f (g.get i j) }
+
+/-- a pixel (every field) put into fields of the storage types `ty` -/
+def castPx (C : Casting) (ty : String → DType) (p : Px) : Px := fun n => C.cast (ty n) (p n)
+
+/-- `__main__.stack` with the storage types: `np.pad(d, …, constant_values=pad)` holds the pad value
+in the types of `d` itself; `np.concatenate` converts every padded input to the promoted types. -/
+def stackT (C : Casting) (o : Orient) (pad : Tok) (ds : List (Grid Px × (String → DType))) :
+    Option (Grid Px) :=
+  let out : String → DType := fun n => C.promote (ds.map (·.2 n))
+  match o with
+  | .horizontal =>
+    let maxY := maxOf (ds.map (·.1.h))
+    concat hcat (ds.map fun d =>
+      (d.1.pad (maxY - d.1.h) 0 (castPx C d.2 fun _ => pad)).map (castPx C out))
+  | .vertical =>
+    let maxX := maxOf (ds.map (·.1.w))
+    concat vcat (ds.map fun d =>
+      (d.1.pad 0 (maxX - d.1.w) (castPx C d.2 fun _ => pad)).map (castPx C out))
+
+/-- the change C20-c2 (a preallocated output of the FIRST input's types, filled by slice assignment):
+every value — of every input, and the pad value — is converted to the first input's types -/
+def stackFirstT (C : Casting) (o : Orient) (pad : Tok) (ds : List (Grid Px × (String → DType))) :
+    Option (Grid Px) :=
+  match ds with
+  | [] => none
+  | d0 :: _ => (stack o (fun _ => pad) (ds.map (·.1))).map (Grid.map (castPx C d0.2))
+
+/-- the type `np.concatenate` gives field `n` of the stack of inputs `0 … len-1` whose field types are `ty k` -/
+def promotedType (C : Casting) (ty : Nat → String → DType) (len : Nat) (n : String) : DType :=
+  C.promote ((List.range len).map fun k => ty k n)
+
+def stackLasersT (C : Casting) (o : Orient) (pad : Tok) (ls : List (Laser × (String → DType))) : Option Laser :=
+  match ls with
+  | [] => none
+  | l0 :: _ =>
+    if ls.all (fun l => l.1.elements == l0.1.elements) then
+      (stackT C o pad (ls.map fun l => (l.1.data, l.2))).map fun g =>
+        { elements := l0.1.elements, data := g, config := l0.1.config, calib := l0.1.calib }
+    else none
+
+/-- `laser.data[element] = func(laser.data[element], …)`: the result of the filter is stored in the
+field, i.e. converted to the field's storage type -/
+def storedFilter (C : Casting) (ty : Nat → String → DType) (f : Nat → String → Grid Tok → Grid Tok) :
+    Nat → String → Grid Tok → Grid Tok :=
+  fun k e g => (f k e g).map (C.cast (ty k e))
+
+/-- `main` with the storage types of the loaded images (`ty k` = field types of input `k`): `filter`
+stores each result in its field, `stack` pads and promotes; `convert` moves no value -/
+def runT (C : Casting) (ty : Nat → String → DType) (a : Args) : Result :=
+  match a.cmd with
+  | .convert _ _ => run a
+  | .filter f sel => run { a with cmd := .filter (storedFilter C ty f) sel }
+  | .stack o pad =>
+    match parse a with
+    | .error _ => ⟨.error, []⟩
+    | .ok outs =>
+      match stackLasersT C o pad ((enum (a.inputs.map (·.laser))).map fun x => (x.2, ty x.1)), outs with
+      | some l, out :: _ =>
+        match save l out with
+        | .ok fs => ⟨.ok, fs⟩
+        | .error _ => ⟨.error, []⟩
+      | _, _ => ⟨.error, []⟩
+
+/-- the conditions of `PewTheorems.C20.runT_refines_spec` on the storage types, for the arguments `a` -/
+def TypesHold (C : Casting) (ty : Nat → String → DType) (a : Args) : Prop :=
+  (∀ f sel, a.cmd = .filter f sel → ∀ k (hk : k < a.inputs.length),
+    ∀ n ∈ a.inputs[k].laser.elements, ∀ i j,
+      C.cast (ty k n) ((f k n (a.inputs[k].laser.field n)).get i j) = (f k n (a.inputs[k].laser.field n)).get i j) ∧
+  (∀ o pad, a.cmd = .stack o pad →
+    (∀ k, k < a.inputs.length → ∀ n, C.cast (ty k n) pad = pad) ∧
+    (∀ n, C.cast (promotedType C ty a.inputs.length n) pad = pad) ∧
+    (∀ k (hk : k < a.inputs.length) i j, i < a.inputs[k].laser.data.h → j < a.inputs[k].laser.data.w → ∀ n,
+      C.cast (promotedType C ty a.inputs.length n) (a.inputs[k].laser.data.get i j n)
+        = a.inputs[k].laser.data.get i j n))
+
+/-- `main` from the paths on, with storage types -/
+def mainRunT (C : Casting) (ty : Nat → String → DType) (c : CmdLine) : Result :=
+  mainWith (loadMech c.defaults) (runT C ty) c
+
+/-! ## objects: `args.lasers` holds references
+
+`main` works on the OBJECTS `load` returned: `laser.config = …`, `laser.remove(…)` and
+`laser.data[element] = …` change the object in place.  `heap` is the list of objects, a work item
+names its object by index.  `create_parser_and_parse_args` builds `args.lasers = [load(input) for
+input in args.input]`: one fresh object per command-line argument (`freshRefs`), also when a path is
+named twice. -/
+
+/-- one turn of the loop on the object itself: the object after the statements, and what is saved
+(`none` = "skipping") -/
+def stepObj (cmd : Cmd) (k : Nat) (l : Laser) : Laser × Option Laser :=
+  match cmd with
+  | .convert cfg els =>
+    let l1 := match cfg with
+      | some c => { l with config := c }
+      | none => l
+    match els with
+    | none => (l1, some l1)
+    | some req =>
+      let l2 := l1.remove (l1.elements.filter fun e => !req.contains e)
+      (l2, if l2.elements.length = 0 then none else some l2)
+  | .filter f sel => let l' := filterStep (f k) sel l; (l', some l')
+  | .stack _ _ => (l, none)
+
+/-- the loop of `main` over `(input number, object reference, output)` -/
+def loopRef (cmd : Cmd) : List (Nat × Nat × Path) → List Laser → List File → Result
+  | [], _, acc => ⟨.ok, acc⟩
+  | (k, r, out) :: rest, heap, acc =>
+    match cmd, heap[r]? with
+    | .stack _ _, _ => ⟨.error, acc⟩
+    | _, none => ⟨.error, acc⟩
+    | cmd, some l =>
+      let (obj, saved) := stepObj cmd k l
+      let heap' := heap.set r obj
+      match saved with
+      | none => loopRef cmd rest heap' acc
+      | some l' =>
+        match save l' out with
+        | .ok fs => loopRef cmd rest heap' (acc ++ fs)
+        | .error _ => ⟨.error, acc⟩
+
+/-- `[load(input) for input in args.input]`: argument `k` is object `k` -/
+def freshRefs (n : Nat) : List Nat := List.range n
+
+/-- the change C20-c1 (`lasers: dict[Path, Laser]`, a path is loaded the first time it is seen):
+argument `k` is the object of the first argument with the same path -/
+def sharedRefs (paths : List Path) : List Nat := paths.map fun p => paths.idxOf p
+
+/-- `main` on objects: argument `k` works on object `refs[k]` of the heap `load` filled; `stack`
+changes no object (`np.pad` / `np.concatenate` build new arrays) -/
+def runRef (refs : List Nat) (a : Args) : Result :=
+  match parse a with
+  | .error _ => ⟨.error, []⟩
+  | .ok outs =>
+    match a.cmd with
+    | .stack _ _ => run a
+    | cmd => loopRef cmd (enum (refs.zip outs)) (a.inputs.map (·.laser)) []
+
+/-! ## what is on disk afterwards -/
+
+/-- the files left after writing `fs` in order: a later file replaces an earlier one at the same path -/
+def finalFiles : List File → List File
+  | [] => []
+  | f :: fs => if fs.any (fun g => g.path == f.path) then finalFiles fs else f :: finalFiles fs
+
+/-- the content at path `p` after writing `fs` in order -/
+def lastAt (fs : List File) (p : Path) : Option Content :=
+  (fs.reverse.find? fun f => f.path == p).map (·.content)
 
 end Pew.Cli
